@@ -5,9 +5,9 @@ from vlib import Infra
 LEVEL = "model_checking"
 
 
-def cfg(lens, align="right", export=False):
-    return ("SPECIFICATION Spec\nCONSTANTS Slot = 32\nLens = {%s}\nAlign = \"%s\"\nINVARIANTS RoundTrip EVMOrder%s\nCHECK_DEADLOCK FALSE\n"
-            % (", ".join(map(str, lens)), align, " Export" if export else ""))
+def cfg(lens, align="right", export=False, tzs=(0,), trim="leading"):
+    return ("SPECIFICATION Spec\nCONSTANTS Slot = 32\nLens = {%s}\nTZs = {%s}\nAlign = \"%s\"\nTrim = \"%s\"\nINVARIANTS RoundTrip EVMOrder%s\nCHECK_DEADLOCK FALSE\n"
+            % (", ".join(map(str, lens)), ", ".join(map(str, tzs)), align, trim, " Export" if export else ""))
 
 
 def run(ctx):
@@ -18,11 +18,18 @@ def run(ctx):
     # design level: every byte-length vector over the classes, both phases; left-alignment mutant must be refuted
     ctx.tlc("ProofCodec", cfg([32, 31, 1, 33] if ctx.quick else [32, 31, 30, 1, 0, 33]), label="ProofCodec mc", timeout=900)
     ctx.expect_mutant_violates("ProofCodec", cfg([32, 31], align="left"), "ProofCodec mutant Align=left")
+    # trailing zero bytes (values divisible by 256^t), at most one such coordinate per proof; trimming on both sides must be refuted
+    ctx.tlc("ProofCodec", cfg([32, 31] if ctx.quick else [32, 31, 2, 33], tzs=(0, 1, 2) if ctx.quick else (0, 1, 2, 3)), label="ProofCodec mc with trailing-zero classes", timeout=1800)
+    ctx.expect_mutant_violates("ProofCodec", cfg([32, 31], tzs=(0, 1), trim="both"), "ProofCodec mutant Trim=both")
     # behaviours for replay: all short/full vectors
     r = ctx.tlc("ProofCodec", cfg([32, 31, 33], export=True), label="ProofCodec gen (short / full / top-of-field classes)", timeout=900)
     vectors = r["traces"]
     if len(vectors) != 6561:
         raise Infra("expected 6561 vectors, got %d" % len(vectors))
+    rz = ctx.tlc("ProofCodec", cfg([32], export=True, tzs=(0, 1, 2, 3)), label="ProofCodec gen (trailing-zero classes)", timeout=900)
+    if len(rz["traces"]) != 25:
+        raise Infra("expected 25 trailing-zero vectors, got %d" % len(rz["traces"]))
+    vectors = vectors + [v for v in rz["traces"] if any(v["tz"])]
     nreal = 16 if ctx.quick else 300
     res = ctx.run_vh(["c10"], dict(vectors=vectors, real=nreal, mode="deletion", depth=1, batch=1), timeout=3000)
     realized = 0
